@@ -331,7 +331,7 @@ Lemma forallb_Forall {A} (f : A -> bool) l : forallb f l = true -> Forall (fun x
 Proof. intro H. apply Forall_forall. apply forallb_forall. exact H. Qed.
 
 Section Part1.
-  Variable fx : bool.
+  Variable fx : fixes.
 
   Lemma starts_ns_expr e : forall lvl, wf_expr e = true -> starts_ns (fmt_expr fx lvl e).
   Proof.
@@ -521,7 +521,7 @@ Proof.
 Qed.
 
 Section Part1b.
-  Variable fx : bool.
+  Variable fx : fixes.
 
   Lemma toks_expr e : forall lvl, toks (fmt_expr fx lvl e) = expr_tokens e.
   Proof.
@@ -597,7 +597,7 @@ Proof.
 Qed.
 
 Section Part1c.
-  Variable fx : bool.
+  Variable fx : fixes.
 
   Lemma ck_expr e lvl ps : wf_expr e = true -> closed ps -> closed (fmt_expr fx lvl e ++ ps).
   Proof. intros. apply closed_app; auto using closed_expr. Qed.
@@ -704,7 +704,7 @@ Proof.
 Qed.
 
 Section Part1d.
-  Variable fx : bool.
+  Variable fx : fixes.
 
   Lemma toks_args lvl args : toks (flat_map (fun a => Sp :: fmt_expr fx lvl a) args) = flat_map expr_tokens args.
   Proof.
@@ -778,7 +778,7 @@ Section Part1d.
 End Part1d.
 
 Section Part1e.
-  Variable fx : bool.
+  Variable fx : fixes.
 
   Lemma prog_loop_closed nl l : forallb wf_stmt l = true -> forall i e, closed (prog_loop fx nl i e l).
   Proof.
